@@ -341,6 +341,18 @@ def feasible(st, extra=()):
 
 
 # ----------------------------------------------------------------------------- the interpreter
+_STABLE_RE = None
+
+
+def _stable(s):
+    """candidate names must not depend on atom numbering (it differs between re-runs)"""
+    global _STABLE_RE
+    if _STABLE_RE is None:
+        import re
+        _STABLE_RE = re.compile(r"'\d+")
+    return _STABLE_RE.sub("", s)
+
+
 class Limit(Exception):
     pass
 
@@ -386,7 +398,12 @@ class Num:
         return (None, None)
 
     def fresh(self, st, hint, t=None, rng=None):
-        self.n_atoms += 1
+        c = getattr(self, "counter", None)
+        if c is not None and c is not self:
+            c.n_atoms = max(c.n_atoms, self.n_atoms) + 1
+            self.n_atoms = c.n_atoms
+        else:
+            self.n_atoms += 1
         a = "%s'%d" % (hint, self.n_atoms)
         r = rng if rng is not None else (self.trange(t) if t else (None, None))
         st.rng[a] = r
@@ -407,7 +424,7 @@ class Num:
                 bv = self.val(base, st)
                 if bv is None:
                     return None
-                return "(" + repr(bv) + ")->" + n["f"]
+                return self.base_of(st, bv) + n["f"]
             bk = self.key(base, st)
             if bk is None:
                 return None
@@ -417,10 +434,28 @@ class Num:
             bv = self.val(fn.d(n["a"][0]), st)
             if bv is None:
                 return None
-            return "(" + repr(bv) + ")->"
+            b_ = self.base_of(st, bv)
+            return b_[:-1] if b_.endswith(".") else b_
         if k == "cast" or k == "decay":
             return self.key(n["a"][0], st)
         return None
+
+    def base_of(self, st, pv):
+        """key prefix of the object a pointer value designates: the named local when it is the address of one that
+        lives in the current frame ("v:x."), else "(value)->" """
+        if pv is None:
+            return None
+        if len(pv.t) == 1:
+            (m, c), = pv.t.items()
+            if c == 1 and len(m) == 1 and m[0].startswith("&"):
+                for k, v in st.env.items():
+                    if k.startswith("&v:") and v == pv:
+                        return k[1:] + "."
+        return "(" + repr(pv) + ")->"
+
+    def obj_of(self, st, pv):
+        b = self.base_of(st, pv)
+        return b[:-1] if b.endswith(".") else b[:-2]
 
     def member_key(self, basekey, arrow_val, f):
         return basekey + "." + f
@@ -457,6 +492,12 @@ class Num:
             st.notes["orig"][k] = a  # first read, or re-read after a callee may have changed it: (re)base
         if t.get("ptr") and t.get("rec") and t.get("psz"):
             st.extent[a] = Poly.const(t["psz"])  # a pointer to a record designates (at least) one whole object
+        if k.startswith("g:") and self.prog is not None and t.get("ptr"):
+            g = self.prog.globals.get(k[2:])
+            if g and g.get("const") is not None and isinstance(g.get("init"), dict) and "str" in g["init"] and g.get("static"):
+                # a file-scope pointer initialised with a string literal and never reassigned (checked by the caller's WHO rule)
+                st.extent[a] = Poly.const(len(g["init"]["str"]) + 1)
+                st.add(Poly.const(1) - Poly.atom(a))
         if self.fn.d(n)["k"] == "var" and self.fn.d(n).get("sc") == "param" and t.get("ptr"):
             st.notes.setdefault("patoms", set()).add(a)
         nn = self.fn.d(n)
@@ -547,9 +588,15 @@ class Num:
         if l1 or l2:
             return False  # a named local object (different keys => different objects or different members)
         b1, b2 = self.base_atom(k1), self.base_atom(k2)
+        if b1 and b1 == b2:
+            p1, p2 = k1[k1.index(")->") + 3:], k2[k2.index(")->") + 3:]
+            if not (p1 == p2 or p1.startswith(p2 + ".") or p2.startswith(p1 + ".") or not p1 or not p2):
+                return False  # two different members of one object
         pa = st.notes.get("patoms", ())
-        if b1 and b2 and b1 != b2 and b1 in pa and b2 in pa:
-            return False
+        if b1 and b2 and b1 != b2:
+            a1, a2 = b1.startswith("&"), b2.startswith("&")  # the address of a named local object
+            if (b1 in pa or a1) and (b2 in pa or a2):
+                return False
         return True
 
     def havoc_type(self, st, ctype):
@@ -918,8 +965,10 @@ class Num:
                 new = [[-d + 1]]
             elif entails(st, d):      # a <= b known  -> a < b
                 new = [[d + 1]]
-            else:
+            elif a.is_const() or b.is_const():
                 new = [[d + 1], [-d + 1]]
+            else:
+                new = [[]]            # a disequality between two unknowns carries no linear information: keep one state
         outs = []
         for alt in new:
             s = st if len(new) == 1 else st.copy()
@@ -1213,6 +1262,9 @@ class Num:
         if isinstance(res, list):
             return res  # hook returned successor states itself
         if res is NotImplemented:
+            inl = self.try_inline(e, args, st)
+            if inl is not None:
+                return inl
             res = None
             callee = e.get("callee")
             if callee not in self.PURE:
@@ -1222,11 +1274,173 @@ class Num:
         st.vals[e["id"]] = res
         return [st]
 
+    # ---- interprocedural: abstract execution of small loop-free callees in the caller's state
+    INLINE_MAX_BLOCKS = 60
+    INLINE_MAX_DEPTH = 3
+    INLINE_MAX_STATES = 12
+
+    def try_inline(self, e, args, st):
+        name = e.get("callee")
+        if not name or self.prog is None or getattr(self, "no_inline", False):
+            return None
+        if name in getattr(self, "inline_deny", ()):
+            return None
+        callee = self.prog.fns.get(name)
+        if callee is None or not callee.blocks or len(callee.blocks) > self.INLINE_MAX_BLOCKS:
+            return None
+        depth = getattr(self, "depth", 0)
+        if depth >= self.INLINE_MAX_DEPTH or name == self.fn.name or name in getattr(self, "stack", ()):
+            return None
+        if len(callee.params) != len(e["a"]):
+            return None
+        sub = Num(callee, self.prog, self.hooks, max_paths=400)
+        if sub.loops():
+            return None
+        sub.depth = depth + 1
+        sub.stack = tuple(getattr(self, "stack", ())) + (self.fn.name,)
+        sub.counter = getattr(self, "counter", None) or self
+        sub.inline_deny = getattr(self, "inline_deny", ())
+        # frame switch: stash the caller's named locals, expose address-taken locals through their address atoms
+        s0 = st.copy()
+        stash, stash_meta = {}, {}
+        addr = {k[1:]: v for k, v in s0.env.items() if k.startswith("&v:") and len(v.t) == 1}
+        for k in list(s0.env):
+            if k.startswith("v:") or k.startswith("&v:"):
+                stash[k] = s0.env.pop(k)
+                if k in s0.meta:
+                    stash_meta[k] = s0.meta[k]
+        links = []
+        for vk, av in addr.items():
+            (m, c), = av.t.items()
+            if len(m) != 1 or c != 1:
+                continue
+            pre = "(" + m[0] + ")->"
+            for k, v in stash.items():
+                if k == vk:
+                    s0.env[pre] = v
+                    links.append((pre, k))
+                elif k.startswith(vk + "."):
+                    s0.env[pre + k[len(vk) + 1:]] = v
+                    s0.meta[pre + k[len(vk) + 1:]] = stash_meta.get(k, (None, None, None))
+                    links.append((pre + k[len(vk) + 1:], k))
+            links.append((pre, vk, "prefix"))
+        for p, a in zip(callee.params, args):
+            t = callee.unit.types[p["t"]]
+            if a is not None:
+                s0.env["v:" + p["n"]] = a
+                s0.meta["v:" + p["n"]] = (None, None, t.get("c"))
+            elif t.get("rec") and not t.get("ptr"):
+                return None  # struct passed by value: not modelled
+        saved_notes = {k: s0.notes.pop(k) for k in ("tern", "loop_cands", "loop_atoms") if k in s0.notes}
+        rets = [x for b in callee.blocks.values() for x in b.elems if x["k"] == "ret"]
+        try:
+            res = sub._inline_states(s0, rets)
+        except Limit:
+            return None
+        if res is None or len(res) > self.INLINE_MAX_STATES or not res:
+            return None
+        if len(res) > 2 and e["id"] not in self.referenced_ids():
+            return None  # the caller ignores the result: a single conservative effect is cheaper than several precise ones
+        if self.paths > self.max_paths // 8:
+            return None
+        outs = []
+        rt = callee.rettype()
+        for (s1, rv) in res:
+            # back to the caller's frame
+            for k in list(s1.env):
+                if k.startswith("v:") or k.startswith("&v:"):
+                    del s1.env[k]
+            new_local = {}
+            for lk in links:
+                if len(lk) == 3:
+                    pre, vk = lk[0], lk[1]
+                    for k in list(s1.env):
+                        if k.startswith(pre) and k != pre:
+                            new_local[vk + "." + k[len(pre):]] = (s1.env[k], s1.meta.get(k))
+                else:
+                    if lk[0] in s1.env:
+                        new_local[lk[1]] = (s1.env[lk[0]], s1.meta.get(lk[0]))
+            for lk in links:  # the exposed copies of address-taken locals go away with the callee's frame
+                if len(lk) == 3:
+                    for k in list(s1.env):
+                        if k.startswith(lk[0]):
+                            del s1.env[k]
+            for k, v in stash.items():
+                s1.env[k] = v
+                if k in stash_meta:
+                    s1.meta[k] = stash_meta[k]
+            touched = {vk for (_, vk, *r) in links}
+            for k in list(s1.env):
+                for vk in addr:
+                    if (k == vk or k.startswith(vk + ".")) and k not in new_local and k.startswith("v:"):
+                        # an address-taken local the callee may have rewritten through its pointer: keep only what it left
+                        pre = None
+                        for lk in links:
+                            if len(lk) == 3 and lk[1] == vk:
+                                pre = lk[0]
+                        if pre is not None and not any(kk.startswith(pre) for kk in s1.env):
+                            pass
+            for k, (v, m) in new_local.items():
+                s1.env[k] = v
+                if m:
+                    s1.meta[k] = m
+            for k, v in saved_notes.items():
+                s1.notes[k] = v
+            s1.vals[e["id"]] = rv if ("w" in rt or rt.get("ptr")) else None
+            outs.append(s1)
+        self.n_atoms = max(self.n_atoms, sub.n_atoms)
+        return outs
+
+    def referenced_ids(self):
+        if getattr(self, "_refd", None) is None:
+            ids = set()
+            fn = self.fn
+            for b in fn.blocks.values():
+                if b.cond is not None and b.cond.get("k") == "ref":
+                    ids.add(b.cond["id"])
+                for e in b.elems:
+                    for n in fn.walk(e):
+                        if n.get("k") == "ref":
+                            ids.add(n["id"])
+            self._refd = ids
+        return self._refd
+
+    def _inline_states(self, s0, rets):
+        """(state, return value) pairs of this function started in state s0"""
+        ids = {r["id"] for r in rets}
+        if self.fn.rettype().get("c") == "void" or not rets:
+            ids = ids | {-1}
+        self.n_atoms = max(self.n_atoms, getattr(self.counter, "n_atoms", 0))
+        sts = self.states_at(ids, entry_state=s0)
+        out = []
+        for r in rets:
+            for st in sts.get(r["id"], []):
+                rv = self.val(r["a"][0], st) if r["a"] and r["a"][0] is not None else None
+                out.append((st, rv))
+        if -1 in ids and not rets:
+            for st in sts.get(-1, []):
+                out.append((st, None))
+        if getattr(self, "counter", None) is not None:
+            self.counter.n_atoms = max(self.counter.n_atoms, self.n_atoms)
+        return out
+
     def havoc_call(self, e, st):
         """conservative effect of an unknown call: the objects its pointer arguments designate, every record type
         reachable from them through pointer fields, and all globals"""
         fn = self.fn
         callee = self.prog.fns.get(e.get("callee")) if (self.prog and e.get("callee")) else None
+        if self.prog is not None and getattr(self, "use_effects", True):
+            E = self.prog.__dict__.get("_effects")
+            if E is None:
+                from .effects import Effects
+                E = self.prog._effects = Effects(self.prog)
+            if callee is not None and callee.blocks:
+                eff = E.of(callee.name)
+                if eff is not None:
+                    self.apply_effects(e, eff, st)
+                    return
+            elif callee is None and e.get("callee") is None and E.is_log_call(fn, e):
+                return
         for ai, a in enumerate(e["a"]):
             x = fn.d(a)
             if x is None:
@@ -1257,7 +1471,7 @@ class Num:
                 if xt.get("rec"):
                     v = self.val(x, st)
                     if v is not None:
-                        self.havoc_prefix(st, "(" + repr(v) + ")->"[:-0] if False else "(" + repr(v) + ")")
+                        self.havoc_prefix(st, self.obj_of(st, v))
                         self.havoc_reachable(st, xt["rec"], include_self=False)
                     else:
                         self.havoc_rec(st, xt["rec"])
@@ -1266,6 +1480,152 @@ class Num:
         for k in list(st.env):
             if k.startswith("g:"):
                 del st.env[k]
+
+    def apply_effects(self, e, eff, st):
+        """invalidate exactly what the callee's write-effect summary (sa/effects.py) says it may store to"""
+        fn = self.fn
+
+        def fallback(rec, fld, ctype):
+            if rec and fld == "*":
+                self.havoc_rec(st, rec)
+            elif rec:
+                for k2 in list(st.env):
+                    m = st.meta.get(k2)
+                    if m and m[0] == rec and m[1] == fld:
+                        del st.env[k2]
+            else:
+                self.havoc_type(st, ctype)
+
+        # cursors the callee only consumes (decided from its body, consume_only): remember their value before the call
+        consumed = []
+        if getattr(self.hooks, "cursor_postconditions", False) and e.get("callee"):
+            groups = {}
+            for it in eff:
+                if it[0] == "p" and it[3] == "aws_byte_cursor" and it[4] in ("len", "ptr") and len(it[2]) == 1 and it[1] < len(e["a"]):
+                    groups.setdefault((it[1], it[2][0][:-3]), set()).add(it[4])
+            for (j, prefix), flds in groups.items():
+                x = fn.d(e["a"][j])
+                inner = x
+                while inner is not None and inner["k"] == "cast":
+                    inner = fn.d(inner["a"][0])
+                if inner is not None and inner["k"] == "un" and inner["op"] == "addr":
+                    kb = self.key(fn.d(inner["a"][0]), st)
+                    base = (kb + "." + prefix) if kb else None
+                else:
+                    v = self.val(x, st) if x is not None else None
+                    base = (self.base_of(st, v) + prefix) if v is not None else None
+                if base is None or not self.consume_only(e["callee"], j, prefix):
+                    continue
+                consumed.append((base, self.field(st, base + "len", "aws_byte_cursor", "len"), self.field(st, base + "ptr", "aws_byte_cursor", "ptr")))
+        self._apply_effect_items(e, eff, st, fallback)
+        for base, l0, p0 in consumed:
+            st.env.pop(base + "len", None)
+            st.env.pop(base + "ptr", None)
+            l1 = self.field(st, base + "len", "aws_byte_cursor", "len")
+            p1 = self.field(st, base + "ptr", "aws_byte_cursor", "ptr")
+            st.add(l1 - l0)
+            st.add(p0 - p1)
+            st.add_eq(p1 + l1 - p0 - l0)
+
+    def consume_only(self, callee_name, j, prefix):
+        """does every path through the callee leave the cursor <param j>-><prefix> a suffix of what it was (len not larger,
+        ptr not smaller, ptr+len unchanged)?  Decided by NUM on the callee's body; memoised per program."""
+        memo = self.prog.__dict__.setdefault("_consume_only", {})
+        key = (callee_name, j, prefix)
+        if key in memo:
+            return memo[key]
+        memo[key] = False  # recursion: not assumed
+        g = self.prog.fns.get(callee_name)
+        ok = False
+        if g is not None and g.blocks and j < len(g.params) and getattr(self, "depth", 0) < 3:
+            sub = Num(g, self.prog, self.hooks, max_paths=20000)
+            sub.track_progress = True
+            sub.depth = getattr(self, "depth", 0) + 1
+            st0 = State()
+            if self.hooks is not None and hasattr(self.hooks, "entry"):
+                self.hooks.entry(sub, st0)
+            p = g.params[j]
+            b = sub.read({"k": "var", "n": p["n"], "sc": "param", "t": p["t"], "id": -1}, st0)
+            if b is not None:
+                base = "(" + repr(b) + ")->" + prefix
+                l0 = sub.field(st0, base + "len", "aws_byte_cursor", "len")
+                p0 = sub.field(st0, base + "ptr", "aws_byte_cursor", "ptr")
+                try:
+                    exits = sub.states_at({-1}, entry_state=st0).get(-1, [])
+                    ok = bool(exits)
+                    for s in exits:
+                        l1, p1 = s.env.get(base + "len"), s.env.get(base + "ptr")
+                        if l1 is None or p1 is None or not (entails(s, l1 - l0) and entails(s, p0 - p1) and entails(s, p1 + l1 - p0 - l0) and entails(s, p0 + l0 - p1 - l1)):
+                            ok = False
+                            break
+                except Limit:
+                    ok = False
+        memo[key] = ok
+        return ok
+
+    def _apply_effect_items(self, e, eff, st, fallback):
+        fn = self.fn
+        for it in sorted(eff, key=repr):
+            kind = it[0]
+            if kind == "t":
+                fallback(it[1], it[2], None)
+            elif kind == "ty":
+                self.havoc_type(st, it[1])
+            elif kind == "r":
+                self.havoc_reachable(st, it[1], include_self=False)
+            elif kind == "g":
+                self.havoc_prefix(st, "g:" + it[1])
+            elif kind == "p":
+                _, j, hops, rec, fld, ctype = it
+                if j >= len(e["a"]):
+                    fallback(rec, fld, ctype)
+                    continue
+                x = fn.d(e["a"][j])
+                inner = x
+                while inner is not None and inner["k"] == "cast":
+                    inner = fn.d(inner["a"][0])
+                cur = None
+                sep = "->"
+                if inner is not None and inner["k"] == "un" and inner["op"] == "addr":
+                    cur = self.key(fn.d(inner["a"][0]), st)
+                    sep = "."
+                elif x is not None:
+                    v = self.val(x, st)
+                    if v is not None:
+                        cur = self.obj_of(st, v)
+                        sep = "." if cur.startswith("v:") else "->"
+                if cur is None:
+                    fallback(rec, fld, ctype)
+                    continue
+                ok = True
+                for hi, ch in enumerate(hops):
+                    if ch:
+                        cur = cur + sep + ch
+                    if hi == len(hops) - 1:
+                        break
+                    pv = st.env.get(cur)
+                    if pv is None:
+                        ok = False
+                        break
+                    cur = self.obj_of(st, pv)
+                    sep = "." if cur.startswith("v:") else "->"
+                if not ok:
+                    fallback(rec, fld, ctype)
+                    continue
+                self.havoc_prefix(st, cur)
+                # other names of the same storage
+                if rec:
+                    recs = {rec}
+                    for k2 in list(st.env):
+                        m = st.meta.get(k2)
+                        if not m or k2 == cur:
+                            continue
+                        if (fld == "*" and m[0] == rec) or (m[0] == rec and m[1] == fld):
+                            if self.may_alias(cur, k2, st):
+                                del st.env[k2]
+                    if fld == "*":
+                        # nested by-value records of a whole-object store reached under another name
+                        pass
 
     def havoc_reachable(self, st, rec, include_self=True):
         R = self.prog.records if self.prog else {}
@@ -1361,6 +1721,37 @@ class Num:
                         self.read(x[3], st)
                 if k is not None and k in st.env and k not in pre:
                     pre[k] = st.env[k]
+        # cursors handed to callees inside the loop: their length is a progress measure
+        prog_keys = []
+        if getattr(self, "track_progress", False):
+            for x in eff:
+                if x[0] == "call":
+                    callee = self.prog.fns.get(x[1].get("callee")) if (self.prog and x[1].get("callee")) else None
+                    for ai, a in enumerate(x[1].get("a", [])):
+                        an = fn.d(a)
+                        at = self.ty(an) if an is not None else {}
+                        if an is None or at.get("rec") != "aws_byte_cursor" or not at.get("ptr"):
+                            continue
+                        if callee is not None and ai < len(callee.params):
+                            pt = callee.unit.types[callee.params[ai]["t"]]
+                            if pt.get("ptr") and pt.get("s", "").startswith("const "):
+                                continue  # read-only view of the cursor
+                        inner = an
+                        while inner is not None and inner["k"] == "cast":
+                            inner = fn.d(inner["a"][0])
+                        if inner is not None and inner["k"] == "un" and inner["op"] == "addr":
+                            bk = self.key(fn.d(inner["a"][0]), st)
+                            lk = (bk + ".len") if bk else None
+                        else:
+                            pv = self.val(an, st)
+                            lk = (self.base_of(st, pv) + "len") if pv is not None else None
+                        if lk and lk not in pre:
+                            pre[lk] = self.field(st, lk, "aws_byte_cursor", "len")
+                            prog_keys.append(lk)
+                        pk = (lk[:-3] + "ptr") if lk else None
+                        if pk and pk not in pre:
+                            pre[pk] = self.field(st, pk, "aws_byte_cursor", "ptr")
+                            prog_keys.append(pk)
         # direction of change of each var: only ++ / += positive-const -> non-decreasing
         direction = {}
         for x in eff:
@@ -1404,6 +1795,11 @@ class Num:
                 st.add(p0 - newv[k])
             elif d == -1:
                 st.add(newv[k] - p0)
+        for k in prog_keys:  # the cursor is only changed through the API: it is still a valid view
+            st.meta[k] = ("aws_byte_cursor", k[-3:], None)
+            if self.hooks is not None and hasattr(self.hooks, "fresh_field"):
+                (m,) = newv[k].t.keys()
+                self.hooks.fresh_field(self, st, k, "aws_byte_cursor", k[-3:], m[0])
         # bound kept from the loop condition: x < N with x stepping by +1 and N loop-invariant  =>  x <= N at the header
         hb = fn.blocks[header]
         stepkeys = {}
@@ -1459,26 +1855,79 @@ class Num:
                 multi_atoms |= p0.atoms()
         hc = []
         dropped = self.loop_drop.get(header, set())
+        if "*" in dropped:
+            single = {}
+            prog_keys = []
         if single:
             mp = {a: newv[k] for a, k in single.items()}
             for F in entry_facts:
                 fa = F.atoms()
                 if not (fa & set(single)) or len(F.t) > 6:
                     continue
-                cid = repr(F.subst({a: Poly.atom("KEY<" + k + ">") for a, k in single.items()}))
+                cid = _stable(repr(F.subst({a: Poly.atom("KEY<" + k + ">") for a, k in single.items()})))
                 if cid in dropped:
                     continue
-                hc.append((cid, F, dict(single)))
+                hc.append((cid, F.subst(mp), {list(newv[k].t)[0][0]: k for k in single.values()}))
                 st.add(F.subst(mp))
+        # cursors changed only through the API inside the loop: ptr never moves back, len never grows, ptr+len is fixed,
+        # and ptr stays below any loop-invariant pointer it was below at entry (candidates, checked like the others)
+        def _atom(p):
+            return list(p.t)[0][0]
+        for pk in prog_keys:
+            if not pk.endswith("ptr"):
+                continue
+            lk = pk[:-3] + "len"
+            if lk not in newv or pk not in newv:
+                continue
+            amap = {_atom(newv[pk]): pk, _atom(newv[lk]): lk}
+            gens = [("cursor-ptr-mono<%s>" % pk, pre[pk] - newv[pk]), ("cursor-len-mono<%s>" % pk, newv[lk] - pre[lk]),
+                    ("cursor-sum-le<%s>" % pk, newv[pk] + newv[lk] - pre[pk] - pre[lk]), ("cursor-sum-ge<%s>" % pk, pre[pk] + pre[lk] - newv[pk] - newv[lk])]
+            patoms = pre[pk].atoms()
+            for k2, V in list(st.env.items()):
+                if k2 in newv or k2.startswith("&") or not (V.atoms() & patoms) or V == pre[pk]:
+                    continue
+                m2 = st.meta.get(k2)
+                if not (m2 and m2[1] == "ptr") and not k2.endswith(".ptr"):
+                    continue
+                if entails(st, pre[pk] - V):
+                    gens.append(("cursor-ptr-le<%s|%s>" % (pk, k2), newv[pk] - V))
+            for cid, G in gens:
+                cid = _stable(cid)
+                if cid in dropped:
+                    continue
+                hc.append((cid, G, amap))
+                st.add(G)
         lc = dict(st.notes.get("loop_cands", {}))
         lc[header] = hc
         st.notes["loop_cands"] = lc
+        la = dict(st.notes.get("loop_atoms", {}))
+        la[header] = {k: v for k, v in newv.items()}
+        st.notes["loop_atoms"] = la
         st.notes.setdefault("loops", []).append((header, sorted(pre), len(cands), len(hc)))
         return st
 
     def check_back_edge(self, header, st):
         """a trace arrived back at the loop header: every kept candidate must hold for the values at the end of the iteration"""
+        if getattr(self, "track_progress", False):
+            moved = None
+            keys = []
+            for k, a0 in st.notes.get("loop_atoms", {}).get(header, {}).items():
+                cur = st.env.get(k)
+                keys.append(k)
+                if cur is None or cur == a0:
+                    continue
+                if entails(st, a0 + 1 - cur) or entails(st, cur - a0 + 1):
+                    moved = k
+                    break
+            if not hasattr(self, "progress"):
+                self.progress = {}
+            self.progress.setdefault(header, []).append((moved is not None, moved, keys))
+            if moved is None and getattr(self, "keep_progress_fail", False):
+                self.__dict__.setdefault("progress_fail", {}).setdefault(header, st)
+        seen_ok = set()
         for cid, F, single in st.notes.get("loop_cands", {}).get(header, []):
+            if cid in self.loop_drop_new.get(header, ()):
+                continue
             mp = {}
             ok = True
             for a, k in single.items():
@@ -1488,7 +1937,13 @@ class Num:
                     break
                 mp[a] = v
             if ok:
-                ok = entails(st, F.subst(mp))
+                G = F.subst(mp)
+                gk = G.key()
+                if G == F or gk in seen_ok:
+                    continue  # nothing it mentions changed on this path: it is one of the state's own facts
+                ok = entails(st, G)
+                if ok:
+                    seen_ok.add(gk)
             if not ok:
                 self.loop_drop_new.setdefault(header, set()).add(cid)
 
@@ -1635,14 +2090,21 @@ class Num:
                 if p not in can:
                     can.add(p)
                     work.append(p)
-        for _round in range(10):
+        import os
+        for _round in range(40):
             self.loop_drop_new = {}
+            if getattr(self, "track_progress", False):
+                self.progress = {}
             out = self._explore(target_ids, targets, can, want_exit, after_ids, entry_state, preds, want_blocks)
             if not self.loop_drop_new:
                 return out
+            if os.environ.get("SA_HOUDINI"):
+                print("  [houdini] %s round %d drops %s" % (self.fn.name, _round, {h: sorted(v) for h, v in self.loop_drop_new.items()}))
             for h, ids in self.loop_drop_new.items():
                 self.loop_drop.setdefault(h, set()).update(ids)
-        return out
+                if _round >= 5:
+                    self.loop_drop[h].add("*")  # not converging: give up every candidate of this loop
+        raise Limit("candidate invariants of %s did not stabilise" % self.fn.name)
 
     def _explore(self, target_ids, targets, can, want_exit, after_ids, entry_state, preds, want_blocks):
         fn = self.fn
